@@ -323,7 +323,8 @@ def violation(ctx, kind, case, detail, no_input=False):
     """record a violation; writes the replay file and prints the VIOLATION line"""
     ctx.nreplay += 1
     os.makedirs(os.path.join(VERIF, "replays"), exist_ok=True)
-    path = os.path.join(VERIF, "replays", f"{ctx.prop}-{ctx.seed}-{ctx.nreplay}.json")
+    alt = f"alt{os.getpid()}-" if os.path.realpath(REPO) != "/repo" else ""
+    path = os.path.join(VERIF, "replays", f"{alt}{ctx.prop}-{ctx.seed}-{ctx.nreplay}.json")
     rec = {"property": ctx.prop, "kind": kind, "case": case, "detail": detail,
            "broken_obligations": ctx.broken, "failing_lean_declarations": failing_theorems(ctx),
            "seed": ctx.seed, "tier": ctx.tier,
